@@ -63,7 +63,7 @@ func judgeInter(s *core.Shard, ic interCase, sink func(map[string]string, string
 		}
 		if ic.Fail {
 			if r.Err == nil {
-				sink(map[string]string{"kind": "missing-required-accepted", "scenario": ic.Kind}, "a required env file that cannot be read (" + ic.Kind + ") did not make the load fail", files)
+				sink(map[string]string{"kind": "missing-required-accepted", "scenario": ic.Kind}, "a required env file that cannot be read ("+ic.Kind+") did not make the load fail", files)
 				return
 			}
 			continue
